@@ -53,8 +53,21 @@ static void run_ct(void)
     R.enabled = 0;
     rseed(12345);
     if (!strcmp(fn, "get") || !strcmp(fn, "prop") || !strcmp(fn, "apply")) {
-	vcp = cal_build((int)a[!strcmp(fn, "apply") ? 0 : 1], (int)a[!strcmp(fn, "apply") ? 1 : 2], 77);
+	/* ncal >= 10: ncal % 10 calibrations plus one WITHOUT frequency points ("zf", solved from a vnacal_new_t with 0 frequencies) */
+	int nc = (int)a[!strcmp(fn, "apply") ? 0 : 1];
+	vcp = cal_build(nc % 10, (int)a[!strcmp(fn, "apply") ? 1 : 2], 77);
 	is_cal = 1;
+	if (nc >= 10) {
+	    vnacal_new_t *z = vnacal_new_alloc(vcp, VNACAL_T8, 1, 1, 0);
+	    R.enabled = 0;
+	    if (z == NULL || vnacal_new_set_frequency_vector(z, fvec) != 0 || std_add(z, 1, 1, 0, h_scalar) != 0 ||
+		    std_add(z, 1, 1, 1, h_scalar) != 0 || std_add(z, 1, 1, 2, h_scalar) != 0 || vnacal_new_solve(z) != 0 ||
+		    vnacal_add_calibration(vcp, "zf", z) < 0 ||
+		    vnacal_property_set(vcp, vnacal_find_calibration(vcp, "zf"), "label=zf") != 0) {
+		printf("STATE-ERROR zero-frequency calibration %s\n", R.msg); exit(3);
+	    }
+	    vnacal_new_free(z);
+	}
     } else {
 	cx gv[NF] = { 0.1, 0.2 + 0.1 * I, 0.3 };
 	vcp = vnacal_create(error_fn, NULL);
@@ -74,8 +87,29 @@ static void run_ct(void)
 	    default: break;
 	    }
 	} else if (strcmp(fn, "new_alloc") && strcmp(fn, "precision")) {
-	    int fvalid = (!strcmp(fn, "set_fv") || !strcmp(fn, "set_m_error") || !strcmp(fn, "solve")) ? (int)a[0] : 1;
-	    vnp = fvalid ? new_build(vcp, VNACAL_T8, 2, 2, 2, h_scalar) : vnacal_new_alloc(vcp, VNACAL_T8, 2, 2, NF);
+	    /* state of the vnacal_new_t: 0 allocated only (no frequency vector), 1 T8 2x2 with frequency vector and two standards,
+	     * 2 (set_fv) allocated, a double reflect of the VECTOR parameter (1..3 GHz) added, no frequency vector yet
+	     *   (set_m_error) T16 2x2 with frequency vector and a single reflect standard: S matrix incomplete
+	     * 3 (set_m_error) T16 2x2 with frequency vector and a double reflect standard: S matrix complete */
+	    int st = (!strcmp(fn, "set_fv") || !strcmp(fn, "set_m_error") || !strcmp(fn, "solve")) ? (int)a[0] : 1;
+	    cx sv[4] = { 0.2, 0, 0, 0.2 };
+	    if (st == 1) vnp = new_build(vcp, VNACAL_T8, 2, 2, 2, h_scalar);
+	    else if (st == 0) vnp = vnacal_new_alloc(vcp, VNACAL_T8, 2, 2, NF);
+	    else if (!strcmp(fn, "set_fv")) {
+		vnp = vnacal_new_alloc(vcp, VNACAL_T8, 2, 2, NF);
+		fill_m(sv, 2, 2);
+		if (vnp == NULL || vnacal_new_add_double_reflect_m(vnp, mrow, 2, 2, h_vector, h_vector, 1, 2) != 0) {
+		    printf("STATE-ERROR vector standard %s\n", R.msg); exit(3);
+		}
+	    } else {
+		vnp = vnacal_new_alloc(vcp, VNACAL_T16, 2, 2, NF);
+		fill_m(sv, 2, 2);
+		if (vnp == NULL || vnacal_new_set_frequency_vector(vnp, fvec) != 0 ||
+			(st == 2 ? vnacal_new_add_single_reflect_m(vnp, mrow, 2, 2, VNACAL_SHORT, 1)
+			         : vnacal_new_add_double_reflect_m(vnp, mrow, 2, 2, VNACAL_SHORT, VNACAL_OPEN, 1, 2)) != 0) {
+		    printf("STATE-ERROR T16 standard %s\n", R.msg); exit(3);
+		}
+	    }
 	    if (vnp == NULL) { printf("STATE-ERROR new\n"); exit(3); }
 	}
     }
@@ -152,6 +186,25 @@ static void run_ct(void)
 	else
 	    ret_int(vnacal_apply(qv, (int)a[2], a[4] ? NULL : fv, (int)a[5], a[12] ? am : NULL, (int)a[13], (int)a[14],
 			a[8] ? NULL : b, (int)a[9], (int)a[10], (A(20) ? NULL : sp)));
+    } else if (!strcmp(fn, "nan_down")) {
+	/* what a NaN handed to a scalar setter does later: a[0] = 0 p-value limit, 1 p tolerance, 2 et tolerance, 3 none
+	 * (base line); T8 2x2, five standards plus a double reflect of an unknown parameter (iterative solver), measurement
+	 * error model with sigma far below the noise the harness puts on the measurements (the p-value test must reject) */
+	double nf[1] = { 1.0e-6 };
+	cx s[4] = { 0.3 + 0.1 * I, 0, 0, 0.3 + 0.1 * I };
+	int rc1 = 0, rc2, rc3;
+	vnacal_new_free(vnp);
+	vnp = new_build(vcp, VNACAL_T8, 2, 2, 5, h_scalar);
+	fill_m(s, 2, 2);
+	rc2 = vnacal_new_add_double_reflect_m(vnp, mrow, 2, 2, h_unknown, h_unknown, 1, 2);
+	rc3 = vnacal_new_set_m_error(vnp, NULL, 1, nf, NULL);
+	if (a[0] == 0) rc1 = vnacal_new_set_pvalue_limit(vnp, NAN);
+	else if (a[0] == 1) rc1 = vnacal_new_set_p_tolerance(vnp, NAN);
+	else if (a[0] == 2) rc1 = vnacal_new_set_et_tolerance(vnp, NAN);
+	rec_reset();
+	errno = 0;
+	ret_int(vnacal_new_solve(vnp));
+	printf("NOTE %s setter=%d add=%d m_error=%d\n", id, rc1, rc2, rc3);
     } else {
 	printf("UNKNOWN-FUNC %s\n", fn);
 	exit(4);
